@@ -134,7 +134,9 @@ def check_selection(ctx, wfs, circle, rng, n):
         subaps = int(rng.integers(1, 9))
         exact = rng.random() < 0.75
         cell = int(rng.integers(1, 7))
-        size = subaps * cell if exact else int(rng.integers(subaps, 6 * subaps + 1))
+        if not exact and rng.random() < 0.5:
+            subaps = int(rng.integers(9, 25))          # many cells on a mask that is not a multiple of the count
+        size = subaps * cell if exact else int(rng.integers(subaps, (6 if subaps < 9 else 2) * subaps + 1))
         mask = gen_mask(rng, size, circle)
         wit = {"subaps": subaps, "size": size, "mask_sum": float(mask.sum())}
         tcls = int(rng.integers(0, 6))
@@ -173,6 +175,24 @@ def check_selection(ctx, wfs, circle, rng, n):
             grid = {(a * sp, b * sp) for a in range(subaps) for b in range(subaps)}
             ctx.check(all((float(x), float(y)) in grid for x, y in coords), "findActiveSubaps:coords_on_grid", "coordinates not on the ideal grid", wit)
             ctx.check(bool(np.all(np.asarray(fills) >= thr)), "findActiveSubaps:fill_below_threshold", "an active cell has fill < threshold", wit)
+            # the cells are a grid: they tile the mask, so a single lit pixel belongs to exactly one cell (whatever the
+            # size / count ratio and however the cell edges are rounded), and that cell contains the pixel
+            for _ in range(6):
+                if rng.random() < 0.6:      # pixels next to an ideal cell edge
+                    py = int(np.clip(round(int(rng.integers(1, subaps + 1)) * sp) + int(rng.integers(-1, 1)), 0, size - 1))
+                    px = int(np.clip(round(int(rng.integers(1, subaps + 1)) * sp) + int(rng.integers(-1, 1)), 0, size - 1))
+                else:
+                    py, px = int(rng.integers(0, size)), int(rng.integers(0, size))
+                one = np.zeros((size, size))
+                one[py, px] = 1.0
+                act = np.asarray(wfs.findActiveSubaps(subaps, one, 1e-9)).reshape(-1, 2)
+                ctx.count("single_pixel_partition_checks")
+                wp = dict(wit, lit_pixel=(py, px), active=act.tolist()[:4])
+                if ctx.check(len(act) == 1, "findActiveSubaps:cells_do_not_tile:%s" % ("overlap" if len(act) > 1 else "gap"),
+                             "a single lit pixel (%d,%d) of a %dx%d mask activates %d of the %dx%d cells" % (py, px, size, size, len(act), subaps, subaps), wp):
+                    a0, b0 = float(act[0][0]), float(act[0][1])
+                    ctx.check(a0 - 1 <= py < a0 + sp + 1 and b0 - 1 <= px < b0 + sp + 1, "findActiveSubaps:active_cell_does_not_contain_pixel",
+                              "lit pixel (%d,%d) activates the cell at (%g,%g) of pitch %g" % (py, px, a0, b0, sp), wp)
         # monotone in the threshold
         thr2 = thr + float(rng.uniform(0, 0.5))
         c2 = np.asarray(wfs.findActiveSubaps(subaps, mask, thr2)).reshape(-1, 2)
